@@ -55,6 +55,29 @@ theorem independent (hc : Gen.Dummy.defaultCopied = true) {w : World} (hb : Buil
     ((w.runOn k opsA).1.runOn j opsB).2 = (w.runOn j opsB).2 :=
   frame_rule_observations w (hb.sep hc) j k hjk opsA opsB ij hj
 
+/-- **independence over interleaved histories**: in ANY interleaving of ops on any number of instances (requests, stream
+    steps, reads, start / stop — `h` is a list of (instance, op) pairs), what instance `j` lets a client observe is exactly
+    what it lets it observe when only its own ops are run and every other instance is never touched -/
+theorem independent_interleaved (hc : Gen.Dummy.defaultCopied = true) {w : World} (hb : Built w) (j : Nat)
+    (h : List (Nat × Op)) (ij : Inst) (hj : w.insts[j]? = some ij) :
+    w.obsFor j h = (w.runOn j (projOps j h)).2 := by
+  have hs := hb.sep hc
+  rw [World.obsFor_local w hs j h ij hj, World.runOn_local w j (projOps j h) ij hj (hs.ok j ij hj)]
+
+/-- `obsFor` is what it says: the observations of the interleaved run at the positions that address `j` -/
+theorem obsFor_spec (w : World) (j : Nat) (h : List (Nat × Op)) :
+    w.obsFor j h = ((h.zip (w.run h).2).filter fun p => p.1.1 = j).map (·.2) := by
+  induction h generalizing w with
+  | nil => rfl
+  | cons p rest ih =>
+    obtain ⟨k, op⟩ := p
+    by_cases hk : k = j
+    · simp only [World.obsFor, hk, if_true, World.run, List.zip_cons_cons, List.filter_cons, decide_true, List.map_cons]
+      rw [ih]
+    · simp only [World.obsFor, if_neg hk, World.run, List.zip_cons_cons, List.filter_cons, hk, decide_false]
+      rw [ih]
+      rfl
+
 theorem run_append (cs : List Chan) (i : Inst) (a b : List Op) :
     (run cs i (a ++ b)).1 = (run (run cs i a).1 (run cs i a).2.1 b).1 ∧
     (run cs i (a ++ b)).2.1 = (run (run cs i a).1 (run cs i a).2.1 b).2.1 := by
@@ -62,8 +85,9 @@ theorem run_append (cs : List Chan) (i : Inst) (a b : List Op) :
   | nil => exact ⟨rfl, rfl⟩
   | cons op a ih => exact ih (step cs i op).1 (step cs i op).2.1
 
-/-- **restart resets**: after any history, `stop(); start()` leaves the function of every channel of the instance
-    in its reset state: counters 0, ChannelFunc2's direction +1 … -/
+/-- **restart resets**: after any history, `stop(); start()` leaves every channel object of the instance in its
+    reset state: the function's counters 0, ChannelFunc2's direction +1, and the call counter that
+    `DeviceChannel.data_get` hands to `func.get()` 0 (see `reset_state`) -/
 theorem restart_resets (cs : List Chan) (i : Inst) (ops : List Op) :
     ∀ c ∈ (run cs i (ops ++ [.stop, .start])).1, c.GenFresh := by
   rw [(run_append cs i ops [.stop, .start]).1]
@@ -71,17 +95,52 @@ theorem restart_resets (cs : List Chan) (i : Inst) (ops : List Op) :
   generalize (run cs i ops).2.1 = i1
   exact start_fresh rfl (stop cs1 i1).1 (stop cs1 i1).2.1
 
+/-- what the reset state is, per function — and for every channel object the call counter is 0 -/
+theorem reset_state (c : Chan) :
+    c.GenFresh ↔ ((c.gen = some 1 ∨ c.gen = some 6 ∨ c.gen = some 7 ∨ c.gen = some 9 ∨ c.gen = some 10 → c.cntr = 0) ∧
+      (c.gen = some 2 → c.cntr = 0 ∧ c.sign = 1) ∧ c.calls = 0) := GenFresh_iff rfl c
+
+/-- **the call counter restarts** (finding F19): after any history, `stop(); start()` leaves the counter passed to
+    `IDeviceChannelFunc.get(cntr)` at 0 for every channel of the instance.  `Gen.Dummy.resetZeroesCalls` is read by the
+    translator from `DeviceChannel.reset`; before the repair it was `false` and this theorem did not check. -/
+theorem restart_calls_zero (cs : List Chan) (i : Inst) (ops : List Op) :
+    ∀ c ∈ (run cs i (ops ++ [.stop, .start])).1, c.calls = 0 :=
+  fun c hc => ((reset_state c).mp (restart_resets cs i ops c hc)).2.2
+
 /-- … so every deterministic channel begins its sequence again: its next `n` outputs are those of a newly
-    created function -/
+    created channel object (function state initial, call counter 0).  `outputs` depends on the call counter through
+    the functions that read their argument (kinds 11, 12), so this is a statement about the counter as well. -/
 theorem restart_sequence (cs : List Chan) (i : Inst) (ops : List Op) (n : Nat) :
     ∀ c ∈ (run cs i (ops ++ [.stop, .start])).1,
       c.outputs n = ({ c with cntr := 0, sign := 1, calls := 0 } : Chan).outputs n :=
-  fun c hc => GenFresh.outputs (restart_resets cs i ops c hc) n
+  fun c hc => GenFresh.outputs rfl (restart_resets cs i ops c hc) n
 
-/-- what the reset state is, per function -/
-theorem reset_state (c : Chan) :
-    c.GenFresh ↔ ((c.gen = some 1 ∨ c.gen = some 6 ∨ c.gen = some 7 ∨ c.gen = some 9 ∨ c.gen = some 10 → c.cntr = 0) ∧
-      (c.gen = some 2 → c.cntr = 0 ∧ c.sign = 1)) := GenFresh_iff c
+/-- a function of the call index (`get(cntr) -> (cntr,) * vdim`, kind 11) begins again at 0 after a restart:
+    its next `n` outputs are `0, 1, …, n - 1`, whatever happened before -/
+theorem restart_callidx (cs : List Chan) (i : Inst) (ops : List Op) (n : Nat) :
+    ∀ c ∈ (run cs i (ops ++ [.stop, .start])).1, c.gen = some 11 →
+      c.outputs n = (List.range n).map fun (j : Nat) => some (List.replicate c.vdim (PyVal.int (j : Int)), []) := by
+  intro c hc hg
+  rw [outputs_callidx c hg n, restart_calls_zero cs i ops c hc]
+  simp
+
+/-- the sparse function of the call index (kind 12: `None` unless `cntr % 3 == 0`) begins again as well: after a
+    restart call `j` yields the value `j` iff `j % 3 = 0` -/
+theorem restart_sparse (cs : List Chan) (i : Inst) (ops : List Op) (n : Nat) :
+    ∀ c ∈ (run cs i (ops ++ [.stop, .start])).1, c.gen = some 12 →
+      c.outputs n = (List.range n).map fun (j : Nat) =>
+        if j % 3 = 0 then some (List.replicate c.vdim (PyVal.int (j : Int)), []) else none := by
+  intro c hc hg
+  rw [outputs_sparse c hg n, restart_calls_zero cs i ops c hc]
+  simp
+
+/-- the syntactic shapes the restart clause rests on, read by the translator: `start()` resets the device before starting
+    the threads, `Device.reset` resets every channel, `DeviceChannel.reset` resets the attached function AND zeroes the call
+    counter, `data_get` passes that counter to the function and increments it on every call; `stop()` drops one item of each
+    queue -/
+theorem source_shapes :
+    Gen.Dummy.startResets = true ∧ Gen.Dummy.devResetShape = true ∧ Gen.Dummy.resetZeroesCalls = true ∧
+    Gen.Dummy.stopDrainsOne = true ∧ Gen.Dummy.ctorShape = true := by decide
 
 /-! ### non-vacuity -/
 
@@ -105,5 +164,29 @@ example :
     let i : Inst := { newInst [0] 3 0 3 0 with flag := true }
     ((run [c] i [.start, .streamStep]).1.map fun c => (c.cntr, c.sign)) = [(3, 1)] ∧
     ((run [c] i [.start, .streamStep, .stop, .start]).1.map fun c => (c.cntr, c.sign)) = [(0, 1)] := by decide +kernel
+
+/-- F19's input: a channel whose function returns its argument; three samples (0, 1, 2), then stop / start: the call
+    counter is 0 again and the next batch is 0, 1, 2 again (the pre-fix code went on with 3, 4, 5) -/
+example :
+    let c : Chan := ⟨true, 7, 1, 0, 0, [], some 11, 0, 1, 0⟩
+    let i : Inst := { newInst [0] 3 0 3 0 with flag := true }
+    ((run [c] i [.start, .streamStep]).1.map fun c => c.calls) = [3] ∧
+    ((run [c] i [.start, .streamStep, .stop, .start]).1.map fun c => c.calls) = [0] ∧
+    (run [c] i [.start, .streamStep, .read, .stop, .start, .streamStep, .read]).2.2 =
+      [.none, .none, .bytes (Spec.wire 1 [0, 0, 0, 0, 0, 0, 0, 1, 0, 0, 0, 0, 2, 0, 0, 0]), .none, .none, .none,
+       .bytes (Spec.wire 1 [0, 0, 0, 0, 0, 0, 0, 1, 0, 0, 0, 0, 2, 0, 0, 0])] := by decide +kernel
+
+example : Built (((World.init.newDefault 3 16 2 0).newDefault 3 16 2 0).newDefault 1 0 1 0) :=
+  ((Built.init.newDefault ..).newDefault ..).newDefault ..
+
+/-- three default devices, an interleaved history: device 1's observations are those of its own ops alone -/
+example :
+    let w := ((World.init.newDefault 3 16 2 0).newDefault 3 16 2 0).newDefault 1 0 1 0
+    let h : List (Nat × Op) := [(0, .start), (1, .start), (0, .write (Spec.wire 6 [2, 0, 1])), (1, .write (Spec.wire 3 [1])), (0, .recvStep),
+      (2, .start), (1, .recvStep), (0, .read), (1, .read), (2, .write (Spec.wire 2 [])), (2, .recvStep), (1, .read), (2, .read)]
+    projOps 1 h = [.start, .write (Spec.wire 3 [1]), .recvStep, .read, .read] ∧
+    w.obsFor 1 h = (w.runOn 1 (projOps 1 h)).2 ∧
+    w.obsFor 1 h = [.none, .none, .none, .bytes (Spec.wire 3 [0, 10, 1, 0, 0, 0x63, 0x68, 0x61, 0x6e, 0x31]), .bytes []] := by
+  decide +kernel
 
 end Nxs.C16
